@@ -4,13 +4,13 @@ CONSTANTS
   SwapIn = ""
   NoShadow = FALSE
   ShallowSub = FALSE
-  IgnoreNs = FALSE
+  IgnoreNs = TRUE
   ModSharedPath = FALSE
   MaxMod = 0
   NodeU <- NodeU4
   MaxAssoc = 2
-  CreateNs = {1, 2}
-  ClsU = {"AB", "ABS", "ABSS", "AT", "AL"}
+  CreateNs = {1}
+  ClsU = {"AB", "ABS", "AT", "AL"}
   AcU <- AcSmall
   RcU <- RcSmall
   RlU <- RlSmall
